@@ -30,4 +30,22 @@ PROPS = {
                     "real-time latency of the polling variants is exercised, not proved"],
         "trusted_base": ["Gen/RWMutexGen.v is regenerated from /repo/rwmutex.go on every run; the exported wrappers are only checked structurally (C12_wrappers_as_expected)"],
     },
+    "C18": {
+        "gen": ["ConstsGen.v"],
+        "props_file": "Props/C18.v",
+        "coq_targets": ["Props/C18.v"],
+        "level_text": "Proof: byte-level Gallina model of ReadStreamFrame/WriteStreamFrame (seven frame types), ReadPosMapFrom/WritePosMapTo, chunk.Reader/Writer and ReadFullAt; "
+                      "round-trip for every value and every segmentation of the reader, exact error class for every proper prefix, soundness on arbitrary bytes (accepted input re-encodes to the consumed bytes), "
+                      "allocation bound proportional to bytes received (Props/C18.v). The model is hand-written and tied to /repo by byte-exact differential execution of encoders and decoders on generated, prefix, mutated and random inputs.",
+        "level_note": "Trusted: Coq kernel; harness generators/oracle; frame type codes and chunk constants are regenerated from the source (Gen/ConstsGen.v). Modelled not verified: the Go text of client.go/http.go/chunk.go (correspondence only); "
+                      "allocation is measured on the real code in a subprocess (TotalAlloc), the model's meter is an abstraction of bytes.Buffer growth; hangs are excluded by structural recursion in the model and by time-outs on the code.",
+        "technique": "Coq proof (round-trip/prefix/soundness by induction over field layouts and chunk lists) + vm_compute correspondence + subprocess allocation oracle",
+        "rule": "frame values of all seven types with names of length 0,1,2,7,255,256,257,1000 (65535/65536/70001 in a stratum) and boundary integers; every proper prefix of every encoding (sampled beyond 64 bytes); bit-flip mutants; random byte strings; "
+                "position maps of 0-200 entries with every prefix (sampled) and mutants; chunked bodies with write sizes around 0/1/65534/65535/65536/65537/131071 and every prefix near chunk boundaries; ReadFullAt over short-reading ReaderAt; "
+                "8 hostile length-prefix inputs decoded in a subprocess. distinct = (kind, type, encoded length) classes; non-trivial = at least one decode or encode compared with the expected value/error class",
+        "explanation": "Theorems quantify over all values, all segmentations and all prefixes; correspondence re-executes a sample of the very cases the harness ran on the real code.",
+        "assumes": ["the reader passed to the decoders follows the io.Reader contract (segments modelled as a list, empty reads allowed)",
+                    "memory: Go allocations other than the length-prefixed buffers are bounded by a constant per field"],
+        "trusted_base": ["Model/Codec.v is hand-written; tie = cases_c18_*.v correspondence on every run"],
+    },
 }
